@@ -6,6 +6,7 @@ RULE = ("random tables (1-5 columns, 0-8 data rows; integers and every kind of f
         "-9999/0/-0.0/1e20/3.5; both element types) read with the real EEMSRead, plus empty files, missing headers, non-numeric cells "
         "and short rows; arrays (int64/float64, some with missing cells) written with the real EEMSWrite, the file compared with "
         "the model and every column read back and compared bit for bit. non-trivial = read of >= 2 rows with a declared missing value or a non-integer value")
+RULE += (' Tables overwrite paths read before; records whose cells are all empty; models that read and write the same table with the writer declared first.')
 TRUSTED = ["Python's csv module (rows as csv.reader delivers them), float(text) and str(float) are oracles of the model"]
 ASSUMPTIONS = ["1-D arrays; ASCII header names in the Coq comparison"]
 
